@@ -239,6 +239,10 @@ def _minmax(I, args, kw, is_min):
             best = mk_int(z3.If(bt.t, int_term(x), int_term(best)))
         elif (is_reallike(x) or is_intlike(x)) and (is_reallike(best) or is_intlike(best)):
             best = mk_real(z3.If(bt.t, real_term(x), real_term(best)))
+        elif isinstance(x, tuple) and isinstance(best, tuple) and len(x) == len(best) and key is None \
+                and all(is_intlike(e) and not isinstance(e, bool) for e in x + best):
+            # tuples of integers: member-wise if-then-else, no fork
+            best = tuple(mk_int(z3.simplify(z3.If(bt.t, int_term(p), int_term(q)))) for p, q in zip(x, best))
         else:
             if I.ctx.decide(bt.t):
                 best = x
